@@ -152,7 +152,14 @@ class ProgGen:
                 return f"(try {self.expr(kind, scope, depth - 1)} (catch {r.choice(['wrong-argument-type', 'my-kind', 'unbound-symbol'])} (lambda ({v}) {self.expr(kind, [(v, 'any')] + scope, depth - 2)})) (catch-all (lambda ({v}) {self.expr(kind, [(v, 'any')] + scope, depth - 2)})))"
             return f"(throw 'kind '{r.choice(['my-kind', 'other'])} 'payload {self.expr('any', scope, depth - 1)})"
         if c == "inline_macro":
-            return f"((macro (p q) (list 'if p q {self.literal(kind)})) {self.expr('bool', scope, depth - 1)} {self.expr(kind, scope, depth - 1)})"
+            k = r.below(4)
+            if k == 0:
+                return f"((macro (p q) (list 'if p q {self.literal(kind)})) {self.expr('bool', scope, depth - 1)} {self.expr(kind, scope, depth - 1)})"
+            if k == 1:   # the expansion is itself a macro call: a second pass is needed
+                return f"((macro (p q) (list 'when p q)) {self.literal('bool')} {self.literal(kind)})"
+            if k == 2:
+                return f"((macro (p q) (list 'and p (list 'or p q))) {self.literal('bool')} {self.literal(kind)})"
+            return f"((macro (p) (list (list 'macro '(q) '(list 'when t q)) p)) {self.literal(kind)})"
         if c == "effect":
             tag = r.choice(["a", "b", "c", "d"])
             out = f"(output-file '*stdout* \"{tag}\")"
